@@ -39,7 +39,7 @@ class Contract:
     def __init__(self, target, args=None, requires=None, ensures=(), outcomes=None,
                  returns=None, effect=None, result=None, setup=None, covers=None,
                  inputs_of=None, replay=None, note='', label=None,
-                 outputs=None, lemmas=(), overrides=None, exc_fields=None):
+                 outputs=None, lemmas=(), overrides=None, exc_fields=None, pure=False):
         self.target = target
         self.fn = resolve(target)
         self.args = dict(args or {})
@@ -55,6 +55,7 @@ class Contract:
         self.note = note
         self.label = label or target
         self.lemmas = list(lemmas)     # spec functions f(x: str) assumed as forall x. f(x)
+        self.pure = pure              # deterministic, effect-free: usable under quantifiers at call sites
         self.exc_fields = dict(exc_fields or {})   # exception class -> {field: type} (call sites)
         self.overrides = dict(overrides or {})   # env attributes set while verifying this contract
 
